@@ -1,10 +1,12 @@
 use crate::run::Suite;
 use std::path::Path;
 
+pub mod c17;
 pub mod c21;
 
 pub fn for_property(p: &str) -> Vec<Suite> {
     match p {
+        "C17" => c17::suites(),
         "C21" => c21::suites(),
         _ => vec![],
     }
